@@ -4,6 +4,11 @@
 //!   style    all 243 `Style`s through the real `AnsiWriter(Vec<u8>)::set_style` (exhaustive, every run)
 //!   hl       random nested `{h(…)}` patterns × level through `PatternEncoder::encode` into an
 //!            `AnsiWriter(Vec<u8>)` (colour) or a `SimpleWriter(Vec<u8>)` (no colour)
+//!   hlf      the same with format specs (fill, alignment, min/max width; max 0 and min > max
+//!            included) ON highlight groups and on plain groups AROUND them, group nesting ≤ 3,
+//!            contents shorter than / equal to / longer than the maximum width, a message of
+//!            varying length; a systematic block (templates × 5 levels × lengths around the
+//!            limit) on every run plus random patterns
 //!   console  a child process (`verif-harness child c18 <target> <tty_only>`) that builds a real
 //!            `ConsoleAppender` and appends one record per level; its stdout / stderr are each a
 //!            pseudo-terminal or a pipe (tools/pty_run.py), under each of the 27 settings of
@@ -116,6 +121,90 @@ fn gen_chunks(rng: &mut Rng, depth: u32, max_depth: u32, out: &mut Vec<String>) 
     }
 }
 
+const MSG_ALPHABET: &[&str] = &["a", "b", "c", "d", "e", "f", "g", "h", "0", "1", " ", "é", "→", "\u{1F600}"];
+const FILLS: &[char] = &[' ', ' ', '*', '.', '_', '0', '#', 'é', '→'];
+
+fn level_name_len(lvl: u8) -> usize {
+    match lvl {
+        1 | 4 | 5 => 5,
+        _ => 4,
+    }
+}
+
+/// chunk list with parameters on groups; returns the (rough) number of characters it renders,
+/// which the caller uses to aim maximum widths below, at and above the content length
+fn gen_fchunks(rng: &mut Rng, depth: u32, max_depth: u32, lvl: u8, msg_len: usize, out: &mut Vec<String>) -> usize {
+    let items = rng.range(if depth == 0 { 1 } else { 0 }, 3);
+    let mut total = 0usize;
+    for _ in 0..items {
+        let r = rng.below(12);
+        if (r < 5 || (depth == 0 && r < 9)) && depth < max_depth {
+            let highlight = rng.chance(2, 3);
+            let at = out.len();
+            out.push(String::new());
+            let inner = gen_fchunks(rng, depth + 1, max_depth, lvl, msg_len, out);
+            out.push("E".to_owned());
+            let with_params = rng.chance(if highlight { 3 } else { 9 }, if highlight { 4 } else { 10 });
+            let mut rendered = inner;
+            let tok = if !with_params {
+                if highlight {
+                    "H".to_owned()
+                } else {
+                    "G/-/l/-/-".to_owned()
+                }
+            } else {
+                let near = |rng: &mut Rng| -> usize {
+                    match rng.below(8) {
+                        0 => 0,
+                        1 => inner.saturating_sub(1),
+                        2 => inner,
+                        3 => inner + 1,
+                        4 => inner / 2,
+                        5 => inner + rng.range(2, 6) as usize,
+                        _ => rng.range(0, 10) as usize,
+                    }
+                };
+                let max_w = if rng.chance(4, 5) { Some(near(rng)) } else { None };
+                let min_w = if rng.chance(1, 2) { Some(near(rng)) } else { None };
+                let fill = *rng.pick(FILLS);
+                let right = rng.chance(1, 2);
+                if let Some(m) = min_w {
+                    rendered = rendered.max(m);
+                }
+                if let Some(m) = max_w {
+                    rendered = rendered.min(m);
+                }
+                format!(
+                    "{}/{}/{}/{}/{}",
+                    if highlight { "H" } else { "G" },
+                    if fill == ' ' { "-".to_owned() } else { format!("{:x}", fill as u32) },
+                    if right { "r" } else { "l" },
+                    enc_opt(min_w, |m| m.to_string()),
+                    enc_opt(max_w, |m| m.to_string())
+                )
+            };
+            out[at] = tok;
+            total += rendered;
+        } else if r < 7 {
+            out.push("M".to_owned());
+            total += msg_len;
+        } else if r < 8 {
+            out.push("L".to_owned());
+            total += level_name_len(lvl);
+        } else {
+            let len = rng.range(1, 5);
+            let mut s = String::new();
+            for _ in 0..len {
+                let t: &&str = rng.pick(TEXT_ALPHABET);
+                s.push_str(t);
+            }
+            total += s.chars().count();
+            out.push(format!("T{}", enc_bytes(s.as_bytes())));
+        }
+    }
+    total
+}
+
 pub fn gen(rng: &mut Rng, n: usize, thorough: bool, emit: &mut dyn FnMut(String)) {
     // 1. all 243 styles (exhaustive in both tiers)
     let cols = ["-", "0", "1", "2", "3", "4", "5", "6", "7"];
@@ -181,14 +270,54 @@ pub fn gen(rng: &mut Rng, n: usize, thorough: bool, emit: &mut dyn FnMut(String)
             emit(console_line(*env, tty, tty, target, true));
         }
     }
-    // 3. nested highlight patterns
+    // 3. highlight groups with width parameters, systematic: templates × level × message length
+    //    around the limit (`W` in a template is the limit; the message has W-1, W, W+1 … characters)
+    let templates: [(&str, usize); 12] = [
+        ("H/-/l/-/5,M,E,T7c", 5),                       // {h({m}):.5}|
+        ("H/-/l/8/5,M,E,T7c", 5),                       // {h({m}):<8.5}|
+        ("H/2a/r/8/5,M,E,T7c", 5),                      // {h({m}):*>8.5}|
+        ("G/-/l/-/3,H,M,E,E,T7c", 3),                   // {({h({m})}):.3}|
+        ("H/-/l/-/0,M,E,T7c", 0),                       // {h({m}):.0}|
+        ("G/-/r/6/4,T61,H/-/l/-/2,M,E,T62,E", 2),       // {(a{h({m}):.2}b):>6.4}
+        ("H/-/l/-/9,L,T20,M,E,T0a", 3),                 // {h({l} {m}):.9}\n
+        ("H/-/l/-/6,T5b,H/-/l/-/3,M,E,T5d,E", 3),       // {h([{h({m}):.3}]):.6}
+        ("G/-/l/-/4,G/-/l/-/6,H/-/l/-/8,M,E,E,E,T7c", 4), // three levels, the outermost is the tightest
+        ("H/-/r/-/4,M,E,H/-/l/-/4,M,E", 4),             // two groups in a row
+        ("H/5f/l/3/-,M,E,T7c", 3),                      // {h({m}):_<3}|   (no maximum)
+        ("G/-/l/-/1,Tc3a9,H,Te28692,M,E,E", 1),         // multi-byte characters at the cut
+    ];
+    let letters = "abcdefghijklmnop";
+    for (tokens, w) in templates.iter() {
+        for lvl in 1..=5u8 {
+            let mut lens: Vec<usize> = vec![0, w.saturating_sub(1), *w, w + 1, w + 7];
+            lens.dedup();
+            for len in lens {
+                let msg: String = letters.chars().take(len).collect();
+                emit(format!("hlf\tansi\t{}\t{}\t{}", lvl, enc_str(&msg), tokens));
+            }
+        }
+        emit(format!("hlf\tsimple\t1\t{}\t{}", enc_str("abcdefgh"), tokens));
+    }
+    // 4. random patterns: one third without parameters, two thirds with
     for k in 0..n {
-        let max_depth = if thorough { 1 + (k as u32 % 6) } else { 1 + (k as u32 % 4) };
-        let mut toks = vec![];
-        gen_chunks(rng, 0, max_depth, &mut toks);
         let writer = if rng.chance(3, 4) { "ansi" } else { "simple" };
         let lvl = rng.range(1, 5);
-        emit(format!("hl\t{}\t{}\t{}", writer, lvl, enc_list(",", &toks)));
+        if k % 3 == 0 {
+            let max_depth = if thorough { 1 + (k as u32 % 6) } else { 1 + (k as u32 % 4) };
+            let mut toks = vec![];
+            gen_chunks(rng, 0, max_depth, &mut toks);
+            emit(format!("hl\t{}\t{}\t{}", writer, lvl, enc_list(",", &toks)));
+        } else {
+            let msg_len = rng.range(0, 12) as usize;
+            let mut msg = String::new();
+            for _ in 0..msg_len {
+                let t: &&str = rng.pick(MSG_ALPHABET);
+                msg.push_str(t);
+            }
+            let mut toks = vec![];
+            gen_fchunks(rng, 0, 1 + (k as u32 % 3), lvl as u8, msg.chars().count(), &mut toks);
+            emit(format!("hlf\t{}\t{}\t{}\t{}", writer, lvl, enc_str(&msg), enc_list(",", &toks)));
+        }
     }
 }
 
@@ -235,23 +364,73 @@ fn exec_style(t: &str, b: &str, i: &str) -> String {
     }
 }
 
+/// `f/a/m/M` → the format spec text after the closing parenthesis (`:*>8.5`), empty if it says nothing
+fn spec_text(parts: &[&str]) -> Option<String> {
+    if parts.len() != 4 {
+        return None;
+    }
+    let fill = if parts[0] == "-" { ' ' } else { char::from_u32(u32::from_str_radix(parts[0], 16).ok()?)? };
+    let right = match parts[1] {
+        "r" => true,
+        "l" => false,
+        _ => return None,
+    };
+    let num = |s: &str| -> Option<Option<usize>> {
+        if s == "-" {
+            Some(None)
+        } else {
+            s.parse::<usize>().ok().map(Some)
+        }
+    };
+    let (min_w, max_w) = (num(parts[2])?, num(parts[3])?);
+    let mut t = String::new();
+    if fill != ' ' {
+        t.push(fill);
+        t.push(if right { '>' } else { '<' });
+    } else if right {
+        t.push('>');
+    }
+    if let Some(m) = min_w {
+        t.push_str(&m.to_string());
+    }
+    if let Some(m) = max_w {
+        t.push('.');
+        t.push_str(&m.to_string());
+    }
+    Some(if t.is_empty() { t } else { format!(":{}", t) })
+}
+
 fn pattern_of_tokens(toks: &[String]) -> Option<String> {
     let mut p = String::new();
+    let mut closers: Vec<String> = vec![];
     for t in toks {
-        match t.as_str() {
-            "H" => p.push_str("{h("),
-            "E" => p.push_str(")}"),
-            "L" => p.push_str("{l}"),
+        let parts: Vec<&str> = t.split('/').collect();
+        match parts[0] {
+            "H" | "G" if parts.len() == 1 || parts.len() == 5 => {
+                if parts[0] == "G" && parts.len() == 1 {
+                    return None;
+                }
+                p.push_str(if parts[0] == "H" { "{h(" } else { "{(" });
+                let spec = if parts.len() == 5 { spec_text(&parts[1..])? } else { String::new() };
+                closers.push(format!("){}}}", spec));
+            }
+            "E" if parts.len() == 1 => p.push_str(&closers.pop()?),
+            "L" if parts.len() == 1 => p.push_str("{l}"),
+            "M" if parts.len() == 1 => p.push_str("{m}"),
             _ => {
                 let bytes = dec_bytes(t.strip_prefix('T')?)?;
                 p.push_str(&String::from_utf8(bytes).ok()?);
             }
         }
     }
-    Some(p)
+    if closers.is_empty() {
+        Some(p)
+    } else {
+        None
+    }
 }
 
-fn exec_hl(writer: &str, lvl: &str, toks: &str) -> String {
+fn exec_hl(writer: &str, lvl: &str, msg: &str, toks: &str) -> String {
     let lvl = match lvl.parse::<u8>().ok().and_then(level) {
         Some(l) => l,
         None => return "bad-case".to_owned(),
@@ -269,11 +448,11 @@ fn exec_hl(writer: &str, lvl: &str, toks: &str) -> String {
         let enc = PatternEncoder::new(&pattern);
         if ansi {
             let mut w = AnsiWriter(Vec::<u8>::new());
-            enc.encode(&mut w, &Record::builder().level(lvl).target("t").args(format_args!("msg")).build())
+            enc.encode(&mut w, &Record::builder().level(lvl).target("t").args(format_args!("{}", msg)).build())
                 .map(|_| w.0)
         } else {
             let mut w = SimpleWriter(Vec::<u8>::new());
-            enc.encode(&mut w, &Record::builder().level(lvl).target("t").args(format_args!("msg")).build())
+            enc.encode(&mut w, &Record::builder().level(lvl).target("t").args(format_args!("{}", msg)).build())
                 .map(|_| w.0)
         }
     }));
@@ -349,7 +528,11 @@ fn exec_console(f: &[&str]) -> String {
 pub fn exec(fields: &[&str]) -> String {
     match fields {
         ["style", t, b, i] => exec_style(t, b, i),
-        ["hl", w, l, toks] => exec_hl(w, l, toks),
+        ["hl", w, l, toks] => exec_hl(w, l, "msg", toks),
+        ["hlf", w, l, msg, toks] => match dec_str(msg) {
+            Some(m) => exec_hl(w, l, &m, toks),
+            None => "bad-case".to_owned(),
+        },
         [kind, rest @ ..] if *kind == "console" && rest.len() == 7 => exec_console(rest),
         _ => "bad-case".to_owned(),
     }
